@@ -124,6 +124,15 @@ pub fn all_single_faults(cmd: u8, seed: &Value, obs: &mut Obs) -> CaseResult {
                 let d = format!("head #{} (major {}) indefinite = {}", idx, major, idx);
                 expect(&format!("indefinite:major{}", major), d, cmd, &m, INVALID_CBOR, obs)?;
             }
+        }        // reserved additional information (28..30; 31 where no indefinite form exists): not CBOR
+        for ai in 28u8..=31 {
+            let (b, applied) = refcbor::encode_fault(&seed, HeadFault::Reserved { idx, ai });
+            if applied {
+                let mut m = vec![cmd];
+                m.extend_from_slice(&b);
+                let d = format!("head #{} (major {}) with additional information {} = {}", idx, major, ai, idx);
+                expect(&format!("reserved-head:major{}", major), d, cmd, &m, INVALID_CBOR, obs)?;
+            }
         }
     }
     // 6. each member's value replaced by a value of every other data type
@@ -295,6 +304,35 @@ fn g_lb(s: &mut Src, o: &mut Obs) -> CaseResult {
     seed_case(CMD_LB, s, o)
 }
 
+/// 7b. malformed encodings INSIDE the value of an unknown member (which the decoder only skips):
+/// reserved additional information, wider-than-needed heads, indefinite forms, lying lengths. The
+/// statement constrains the status of rejected requests: whatever the skipper rejects is
+/// malformed CBOR and must be reported as 0x12.
+fn g_unknown_malformed(src: &mut Src, obs: &mut Obs) -> CaseResult {
+    let Some((cmd, msgs)) = c04::unknown_fault_messages(src) else {
+        return Ok(());
+    };
+    obs.label(cmd_name(cmd));
+    for (name, msg) in msgs {
+        obs.sub(&format!("fault:unknown-member-value:{}", name), &[name.as_bytes(), &msg]);
+        obs.case_with(|| json!({"fault_class": "unknown-member-value", "fault": name, "input_hex": hex(&msg)}));
+        if let Some(st) = c04::status_of(&msg) {
+            if st != INVALID_CBOR {
+                let mut payload = vec![INVALID_CBOR];
+                payload.extend_from_slice(&msg);
+                return Err(Fail::new(
+                    format!("C05:{}:unknown-member-value:{}:got-0x{:02x}", cmd_name(cmd), name, st),
+                    format!("{} request with a malformed encoding ({}) inside an unknown member's value was rejected with 0x{:02x} instead of 0x12", cmd_name(cmd), name, st),
+                    json!({"input_hex": hex(&msg)}),
+                )
+                .with_concrete("c05_concrete", payload));
+            }
+        }
+    }
+    Ok(())
+}
+pub const G_UNKNOWN_MALFORMED: Gen = Gen { name: "c05_unknown_malformed", f: g_unknown_malformed };
+
 /// 8. all 256 command bytes with empty / valid / random payload. words: [cmd (raw), payload kind, ...]
 fn g_cmdbyte(src: &mut Src, obs: &mut Obs) -> CaseResult {
     let b = (src.word() & 0xFF) as u8;
@@ -400,10 +438,10 @@ pub const G_LACKING: Gen = Gen { name: "c05_lacking", f: g_lacking };
 pub const G_CONCRETE: Gen = Gen { name: "c05_concrete", f: g_concrete };
 
 pub fn gens() -> Vec<Gen> {
-    vec![G_MC, G_GA, G_CP, G_CM, G_CM41, G_LB, G_CMDBYTE, G_LACKING, G_CONCRETE]
+    vec![G_MC, G_GA, G_CP, G_CM, G_CM41, G_LB, G_CMDBYTE, G_LACKING, G_UNKNOWN_MALFORMED, G_CONCRETE]
 }
 
-pub const RULE: &str = "Seeds: for every parameter-bearing command the minimal message (no optional member), the full message (every optional member) and proptest-generated well-formed messages from the C01 generator (known members only, canonical). Every seed is crossed with EVERY single fault of each class, enumerated on the value tree / byte string (no sampling within a seed): removal of each required parameter and required nested member -> 0x14; truncation at every byte offset -> 0x12; each key of each map duplicated -> 0x12; each head re-encoded in each wider width -> 0x12; each string/array/map made indefinite-length -> 0x12; each member's value replaced by a representative of every other data type among unsigned/negative/bytes/text/array/map/boolean (sign changes of signed-integer members and null not asserted) -> 0x12; each bounded member one past its limit (documented lossy members excluded) -> 0x12; stray bytes appended after the parameter map -> if rejected at all, one of the three codes; two faults at once - the map reduced to its first j required parameters (with and without its optional members; by itself 0x14) and additionally truncated at every offset / each key duplicated / each head widened or made indefinite / each remaining value replaced by another type -> 0x12, because 0x14 is reserved for an otherwise well-formed map. Plus all 256 command bytes x 4 payload kinds (unassigned/unsupported -> 0x01), and messages lacking a required parameter combined with up to two further structural faults (never accepted; status within the three codes). Every fault case is non-trivial by construction; distinct by (fault class, faulted message bytes). The evaluation count is the number of fault cases executed, not the number of seeds.";
+pub const RULE: &str = "Seeds: for every parameter-bearing command the minimal message (no optional member), the full message (every optional member) and proptest-generated well-formed messages from the C01 generator (known members only, canonical). Every seed is crossed with EVERY single fault of each class, enumerated on the value tree / byte string (no sampling within a seed): removal of each required parameter and required nested member -> 0x14; truncation at every byte offset -> 0x12; each key of each map duplicated -> 0x12; each head re-encoded in each wider width -> 0x12; each string/array/map made indefinite-length -> 0x12; each head given a reserved additional-information value (28..30, and 31 for integers) -> 0x12; each member's value replaced by a representative of every other data type among unsigned/negative/bytes/text/array/map/boolean (sign changes of signed-integer members and null not asserted) -> 0x12; each bounded member one past its limit (documented lossy members excluded) -> 0x12; stray bytes appended after the parameter map -> if rejected at all, one of the three codes; two faults at once - the map reduced to its first j required parameters (with and without its optional members; by itself 0x14) and additionally truncated at every offset / each key duplicated / each head widened or made indefinite / each remaining value replaced by another type -> 0x12, because 0x14 is reserved for an otherwise well-formed map. Plus well-formed requests with one unknown member in a nested map whose value is malformed at the encoding level (each head in turn: reserved additional information, wider form, indefinite form, lying length): if the value skipper rejects it, the status must be 0x12. Plus all 256 command bytes x 4 payload kinds (unassigned/unsupported -> 0x01), and messages lacking a required parameter combined with up to two further structural faults (never accepted; status within the three codes). Every fault case is non-trivial by construction; distinct by (fault class, faulted message bytes). The evaluation count is the number of fault cases executed, not the number of seeds.";
 pub const ASSUMPTIONS: &[&str] = &[
     "required-member and limit tables (reqmodel.rs) transcribe the CTAP specification / the C12 statement",
     "seed messages contain known members only, so every head is interpreted (not skipped) by the decoder",
@@ -439,12 +477,13 @@ pub fn run(ctx: &mut Ctx) {
     }
     ctx.exhaustive.push("all 256 command bytes x 4 payload kinds".into());
     ctx.random(&G_LACKING, &[], ctx.t(6_000, 300_000), 1200);
+    ctx.random(&G_UNKNOWN_MALFORMED, &[], ctx.t(3_000, 100_000), 900);
     ctx.require(&[
         "fault:missing-required", "fault:truncate", "fault:duplicate-key", "fault:non-minimal:major0", "fault:non-minimal:major2",
         "fault:non-minimal:major3", "fault:non-minimal:major4", "fault:non-minimal:major5", "fault:indefinite:major2",
         "fault:indefinite:major3", "fault:indefinite:major4", "fault:indefinite:major5", "fault:wrong-type:unsigned",
         "fault:wrong-type:negative", "fault:wrong-type:bytes", "fault:wrong-type:text", "fault:wrong-type:array",
-        "fault:wrong-type:map", "fault:wrong-type:boolean", "fault:over-limit", "fault:incomplete+truncate", "fault:incomplete+wrong-type", "fault:incomplete+duplicate-key", "fault:incomplete+non-minimal", "fault:trailing-bytes", "fault:command-byte", "lacking-required",
+        "fault:wrong-type:map", "fault:wrong-type:boolean", "fault:over-limit", "fault:reserved-head:major0", "fault:reserved-head:major2", "fault:reserved-head:major3", "fault:reserved-head:major5", "fault:incomplete+truncate", "fault:unknown-member-value:Reserved", "fault:incomplete+wrong-type", "fault:incomplete+duplicate-key", "fault:incomplete+non-minimal", "fault:trailing-bytes", "fault:command-byte", "lacking-required",
         "MakeCredential", "GetAssertion", "ClientPin", "CredentialManagement", "CredentialManagement(0x41)", "LargeBlobs",
     ]);
 }
